@@ -114,6 +114,15 @@ func runCheck(spec *CheckSpec, tier string) int {
 		}
 	}
 	c.Scns = spec.Scenarios(c)
+	if only := os.Getenv("VERIF_ONLY"); only != "" {
+		var keep []*Scenario
+		for _, s := range c.Scns {
+			if strings.Contains(s.Label, only) {
+				keep = append(keep, s)
+			}
+		}
+		c.Scns = keep
+	}
 	for i, s := range c.Scns {
 		s.ID = i
 	}
